@@ -34,7 +34,10 @@ TRUSTED = [
 ASSUMPTIONS = [
     "category lists are type-homogeneous and duplicate-free; identity transform only for numeric categories",
     "priors uniform and log-uniform (Real's 'normal' prior is not used by the search stack's conversion)",
-    "integer bounds |.| <= 2^47 (uniform) and 1 <= low < high <= 2^40 (log-uniform): above ~2^47 base**x in binary64 cannot return integers exactly (seen: 2^48)",
+    "spaces with a float-valued warped column (normalize, log, real, float categories under identity): integer bounds |.| <= 2^47 (uniform) and 1 <= low < high <= 2^40 (log-uniform) - "
+    "above ~2^47 base**x in binary64 cannot return integers exactly (seen: 2^48), and one float column makes the whole warped array float64; "
+    "spaces whose warped columns are ALL integral (identity Integer, int-category identity ordinals, label / onehot categoricals: stream intspaces) are exact "
+    "for every int64 value and are checked up to +-2^62",
     "finite, normal binary64 bounds with 1e-300 <= |.| <= 1e300",
 ]
 RULE = ("dims: single dimensions, every kind x prior x transform, points on / next to the bounds (math.nextafter), powers of the base, "
@@ -42,7 +45,9 @@ RULE = ("dims: single dimensions, every kind x prior x transform, points on / ne
         "deephyper.hpo HpProblem -> convert_to_skopt_space (RF / GP flavour, optionally normalize_dimensions); respace: ONE Space "
         "object taken through a sequence of transformer switches (Space.set_transformer with a string / a list, "
         "Dimension.set_transformer, normalize_dimensions, set_transformer_by_type, reassignment of space.dimensions), "
-        "checked against the model of the CURRENT configuration before the first and after every switch. "
+        "checked against the model of the CURRENT configuration before the first and after every switch; intspaces: spaces with integral warped "
+        "columns only (identity Integer, int identity ordinals, label / onehot categoricals), bounds / categories up to +-2^62, points 2^53+1, 2^62-1, -2^62, "
+        "exact round trip (integer arithmetic: no rounding oracle), also through switches between the integral transforms. "
         "non-trivial = some dimension does arithmetic (log / normalize / label / onehot) or a point lies on a bound")
 
 F_TRANSFORM, F_PWARGS, F_INVERSE, F_INVERSE_TODAY, F_OK, F_TBOUNDS, F_TDIMS, F_INSPACE, F_SWITCH = 901, 902, 903, 904, 905, 906, 907, 908, 909
@@ -1011,6 +1016,75 @@ def shrink_respace(case):
             yield dict(case, dims=dims[:j] + dims[j + 1:], X=[r[:j] + r[j + 1:] for r in X], steps=st, rows=rows)
 
 
+# ----------------------------------------------------------------------------------------------- intspaces: integral warped columns only
+BIG = 2 ** 62
+SPECIAL_INTS = [2 ** 53 + 1, 2 ** 53 - 1, 2 ** 53, 2 ** 53 + 2, -(2 ** 53) - 1, BIG - 1, -BIG, BIG - 2, 1 - BIG, 2 ** 61 + 1, 2 ** 54 + 1, 10 ** 17 + 1, 0, -1]
+
+
+def gen_bigint_dim(rng):
+    c = rng.random()
+    if c < 0.45:
+        st = rng.random()
+        if st < 0.4:
+            lo, hi = -BIG, BIG - 1
+        elif st < 0.7:
+            lo = rng.choice([0, -(2 ** 53) - 5, 2 ** 53 - 3, -BIG, 2 ** 60])
+            hi = rng.choice([v for v in (2 ** 53 + 5, BIG - 1, 2 ** 61 + 3, 2 ** 60 + 9) if v > lo])
+        else:
+            lo = rng.randint(-BIG, BIG - 2)
+            hi = rng.randint(lo + 1, BIG - 1)
+        return dict(kind="int", lo=lo, hi=hi, prior="uniform", base=10, tr="identity", dtype=rng.choice(["np.int64", "np.int64", "int", "int64str"]))
+    if c < 0.8:
+        n = rng.choice([1, 2, 3, 4, 6])
+        pool = SPECIAL_INTS + [rng.randint(-BIG, BIG - 1) for _ in range(4)] + [rng.randint(-9, 9) for _ in range(2)]
+        cats = rng.sample(list(dict.fromkeys(pool)), n)
+        return dict(kind="cat", cats=cats, ck="int", tr=rng.choice(["identity", "identity", "label", "onehot"]))
+    d = gen_cat(rng, rng.choice(["label", "onehot"]), rng.choice(["str", "bool"]))
+    return d
+
+
+def bigint_point(rng, d):
+    if d["kind"] == "int":
+        inside = [v for v in SPECIAL_INTS + [d["lo"], d["hi"], d["lo"] + 1, d["hi"] - 1] if d["lo"] <= v <= d["hi"]]
+        return rng.choice(inside) if rng.random() < 0.8 else rng.randint(d["lo"], d["hi"])
+    return rng.choice(d["cats"])
+
+
+def gen_intspaces_stream(count):
+    def gen(rng, tier):
+        for i in range(count):
+            nd = rng.choice([1, 1, 2, 3, 4, 6])
+            dims = [gen_bigint_dim(rng) for _ in range(nd)]
+            if i % 4 == 0 and not any(d["kind"] == "int" or d["ck"] == "int" for d in dims):
+                dims[0] = gen_bigint_dim(rng)
+            n = rng.choice([1, 2, 3, 5, 12])
+            X = [[bigint_point(rng, d) for d in dims] for _ in range(n)]
+            case = dict(dims=dims, X=X, variant=rng.choice([None, None, "np"]))
+            if i % 3 == 0:  # the same object through switches that keep every warped column integral
+                steps = []
+                cat_js = [j for j, d in enumerate(dims) if d["kind"] == "cat"]
+                for _ in range(rng.randint(1, 4)):
+                    c = rng.random()
+                    if cat_js and c < 0.6:
+                        j = rng.choice(cat_js)
+                        steps.append(["dim", j, rng.choice(["label", "onehot"] + (["identity"] if dims[j]["ck"] == "int" else []))])
+                    elif cat_js and c < 0.75:
+                        steps.append(["by_type", "cat", rng.choice(["label", "onehot"])])
+                    else:
+                        steps.append(rng.choice([["noop"], ["deepcopy"]]))
+                case.update(steps=steps, rows=[[0, n], [rng.randrange(n), 1]])
+            yield case
+    return gen
+
+
+def check_intspace(case):
+    return check_respace(case) if "steps" in case else check_space(case)
+
+
+def shrink_intspace(case):
+    return shrink_respace(case) if "steps" in case else shrink_space(case)
+
+
 def streams(tier):
     th = tier == "thorough"
     return [
@@ -1018,4 +1092,5 @@ def streams(tier):
         Stream("spaces", gen_spaces_stream(36000 if th else 1000), check_space, shrink_space, timeout=60),
         Stream("problem", gen_problem_stream(4000 if th else 200), check_problem, shrink_problem, timeout=120),
         Stream("respace", gen_respace_stream(8000 if th else 400), check_respace, shrink_respace, timeout=120),
+        Stream("intspaces", gen_intspaces_stream(8000 if th else 400), check_intspace, shrink_intspace, timeout=120),
     ]
